@@ -21,6 +21,7 @@ MAX_BLOCKS = 2500
 MAX_CLONED = 400      # per function: beyond that the function is left as it is
 MAX_CLONED_STD = 150  # ... when only Option/Result values are involved (no crate-local decision type)
 MAX_ROUNDS = 12
+MAX_BETWEEN = 12      # blocks between a merge and the switch it decides, for jump threading without tail duplication
 TOP = 'T'
 
 
@@ -58,7 +59,7 @@ def remap_term(t, m):
     return t
 
 
-STD_ENUMS = ('std::option::Option', 'std::result::Result')
+STD_ENUMS = ('std::option::Option', 'std::result::Result', 'std::ops::ControlFlow')
 
 
 def merge(a, b, depth=0):
@@ -425,31 +426,59 @@ class Threader:
             rest = [p for p in pr[m] if p not in known]
             if not rest:
                 known = known[1:]      # the first one keeps the original copy
-            if not known or len(self.blocks) + len(region) * len(known) > MAX_BLOCKS or \
-                    (self.cloned + len(region) * len(known) > MAX_CLONED) or (not local_type and self.cloned_std + len(region) * len(known) > MAX_CLONED_STD):
+            if not known:
                 continue
-            saved = copy.deepcopy(self.blocks)
-            saved_counts = (self.cloned, self.folded, self.cloned_std)
-            for p in known:
-                mp = {}
-                for b in sorted(region):
-                    mp[b] = len(self.blocks) + len(mp)
-                for b in sorted(region):
-                    nb = {'cleanup': False, 'stmts': copy.deepcopy(self.blocks[b]['stmts']), 'term': remap_term(self.blocks[b]['term'], mp)}
-                    for k_ in self.blocks[b]:
-                        if k_ not in nb:
-                            nb[k_] = copy.deepcopy(self.blocks[b][k_])
-                    nb['clone_of'] = self.blocks[b].get('clone_of', b)
-                    self.blocks.append(nb)
-                retarget(self.blocks[p]['term'], m, mp[m])
-                self.cloned += len(region)
-                if not local_type:
-                    self.cloned_std += len(region)
-            if self.fold() == 0:
-                # nothing became decidable: undo
-                self.blocks[:] = saved
-                self.cloned, self.folded, self.cloned_std = saved_counts
-                blacklist.add(m)
+
+            def fits(reg):
+                return not (len(self.blocks) + len(reg) * len(known) > MAX_BLOCKS or (self.cloned + len(reg) * len(known) > MAX_CLONED) or
+                            (not local_type and self.cloned_std + len(reg) * len(known) > MAX_CLONED_STD))
+            # two ways to duplicate: everything up to the exit (each predecessor gets its own copy of the tail: needed when the
+            # tail uses values that differ per predecessor - a decision type of the crate), or only what lies between the merge
+            # and the switches it decides (classic jump threading: behind them the paths share the original tail again)
+            sws = [b for (b, pl, i) in sw if b in region]
+            back = set(sws)
+            work = list(sws)
+            while work:
+                x = work.pop()
+                if x == m:
+                    continue
+                for p_ in pr.get(x, ()):
+                    if p_ in region and p_ not in back:
+                        back.add(p_)
+                        work.append(p_)
+            between = {b for b in back if b in region} | {m}
+            # (a merge that is itself the switch - the shape of `?` and of a helper's Option result matched at once - needs no tail copy)
+            options = [('tail', region), ('between', between)] if (local_type or len(between) > 2) else [('between', between), ('tail', region)]
+            done = False
+            for (kind, reg) in options:
+                if (m, kind) in blacklist or not fits(reg) or (kind == 'between' and len(reg) > MAX_BETWEEN):
+                    continue
+                saved = copy.deepcopy(self.blocks)
+                saved_counts = (self.cloned, self.folded, self.cloned_std)
+                for p in known:
+                    mp = {}
+                    for b in sorted(reg):
+                        mp[b] = len(self.blocks) + len(mp)
+                    for b in sorted(reg):
+                        nb = {'cleanup': False, 'stmts': copy.deepcopy(self.blocks[b]['stmts']), 'term': remap_term(self.blocks[b]['term'], mp)}
+                        for k_ in self.blocks[b]:
+                            if k_ not in nb:
+                                nb[k_] = copy.deepcopy(self.blocks[b][k_])
+                        nb['clone_of'] = self.blocks[b].get('clone_of', b)
+                        self.blocks.append(nb)
+                    retarget(self.blocks[p]['term'], m, mp[m])
+                    self.cloned += len(reg)
+                    if not local_type:
+                        self.cloned_std += len(reg)
+                if self.fold() == 0:
+                    # nothing became decidable: undo
+                    self.blocks[:] = saved
+                    self.cloned, self.folded, self.cloned_std = saved_counts
+                    blacklist.add((m, kind))
+                    continue
+                done = True
+                break
+            if not done:
                 continue
             return True
         return False
